@@ -258,6 +258,9 @@ def render_source(sc):
         for nm in attrs:
             kind, k = nm
             isg = tuple(nm) in gn
+            if kind == 0 and k >= 500:
+                ls.append(f"{ind}{cbname(nm)} = None      # a plain attribute: its value is assigned after attachment")
+                continue
             if (p, kind, k) in acoros:
                 ls.append(f"{ind}async def {cbname(nm)}(self, **kw): return await _acb({p}, {kind}, {k}, {isg}, kw)")
             else:
@@ -326,10 +329,18 @@ def render_source(sc):
     for p in range(2, len(sc["provs"])):
         out.append("")
         out.append(f"class L{p}:")
-        out.append("    pass")
+        grp = (sc.get("eqgroups") or {}).get(str(p))
+        if grp is None:
+            out.append("    pass")
+        else:       # value-object listeners: distinct objects that compare (and hash) equal
+            out.append(f"    _grp = {grp}")
+            out.append("    def __eq__(self, other): return getattr(other, '_grp', None) == self._grp")
+            out.append("    def __hash__(self): return hash(self._grp)")
         out += methods(p, sc["provs"][p])
     out.append("")
-    out.append(f"LISTENERS = [{', '.join(f'L{p}()' for p in range(2, len(sc['provs'])))}]")
+    late = set(sc.get("late", []))
+    out.append(f"LISTENERS = [{', '.join(f'L{p}()' for p in range(2, len(sc['provs'])) if p not in late)}]")
+    out.append("LATE = {" + ", ".join(f"{p}: L{p}()" for p in sorted(late)) + "}    # attached later with add_listener")
     kw = []
     if sc.get("start") is not None:
         kw.append(f"start_value={state_value(sc, sc['start'])!r}")
@@ -476,11 +487,23 @@ def run_impl(sc):
             box = {"sm": None}
             obs = []
 
+            def assign_attrs():
+                """plain-attribute providers: give every attribute its value (after attachment)"""
+                late_ = sorted(sc.get("late", []))
+                cons = [p for p in range(2, len(sc["provs"])) if p not in late_]
+                objs = {0: box["sm"], 1: model}
+                objs.update({p: o for p, o in zip(cons, listeners)})
+                objs.update(ns["LATE"])
+                for p, kind, k, _scripts, dflt in sc["tbl"]:
+                    if kind == 0 and k >= 500 and objs.get(p) is not None:
+                        setattr(objs[p], cbname([kind, k]), from_json(dflt["r"]))
+
             def step(op):
                 sm = box["sm"]
                 if op[0] == "construct":
                     box["sm"] = None
                     box["sm"] = ns["construct"](model, listeners)
+                    assign_attrs()
                     return None
                 if op[0] == "send":
                     return sm.send(evname(op[1]), tag=op[2])
@@ -490,6 +513,10 @@ def run_impl(sc):
                     return sm.activate_initial_state()
                 if op[0] == "write":
                     sm.current_state_value = state_value(sc, op[1])
+                    return None
+                if op[0] == "add":
+                    sm.add_listener(*[ns["LATE"][p] for p in op[1]])
+                    assign_attrs()
                     return None
                 raise ValueError(op)
 
@@ -624,7 +651,8 @@ def cq_scenario(sc):
                   f"{cq_names(t['after'])}")
     ps = "; ".join(cq_names(p) for p in sc["provs"])
     start = sc["start"] if sc.get("start") is not None else sc["initial"]
-    rounds = "[[" + "; ".join(str(i) for i in range(len(sc["provs"]))) + "]]"
+    late_ = set(sc.get("late", []))
+    rounds = "[[" + "; ".join(str(i) for i in range(len(sc["provs"])) if i not in late_) + "]]"
     coro = "[" + "; ".join(f"cb {p} {kind} {k}" for p, kind, k in sc.get("async", [])) + "]"
     md = (f"(mkM [{ss}] [{'; '.join(ts)}] {start} {b(sc.get('rtc', True))} {b(sc.get('allow'))} "
           f"[{ps}] {coro} {rounds})")
@@ -635,6 +663,7 @@ def cq_scenario(sc):
     for op in sc["ops"]:
         ops.append({"send": lambda o: f"OSend {o[1]} {o[2]}", "activate": lambda o: "OActivate",
                     "call": lambda o: f"OSend {o[2]} {o[3]}",
+                    "add": lambda o: "OAdd [" + "; ".join(map(str, o[1])) + "]",
                     "construct": lambda o: "OConstruct", "write": lambda o: f"OWrite {o[1]}"}[op[0]](op))
     fuel = 6 + total_sends(sc) + len(sc["ops"])
     return (f"(mkSc {md} [{'; '.join(tbl)}] {cq_opt(sc.get('field0'))} [{'; '.join(ops)}] {fuel})")
